@@ -31,6 +31,8 @@ RAW_WRITERS = {
         "because a Rational never has den == 1",
     "SymEngine::harmonic":
         "1/i**m: numerator 1, positive denominator",
+    "SymEngine::trig_simplify":
+        "numerator replaced by a mod b: gcd(a mod b, b) = gcd(a, b) = 1",
     "SymEngine::get_num": "accessor itself",
     "SymEngine::get_den": "accessor itself",
 }
@@ -229,6 +231,14 @@ def run(loader, R, tier):
         if f["file"].endswith(("mp_wrapper.h", "mp_class.h")):
             continue
         for n in walk(f["body"]):
+            if n.get("k") == "op" and n.get("op", "").endswith("=") \
+                    and n["op"] not in ("==", "!=", "<=", ">=") \
+                    and n.get("a"):
+                a0 = n["a"][0]
+                if a0.get("k") == "call" and a0.get("n") in ("get_num",
+                                                             "get_den"):
+                    writers.setdefault(f["qn"], []).append(
+                        (n.get("l"), show(n)[:80]))
             if n.get("k") != "call" or not n.get("a"):
                 continue
             h = prog.header(n.get("u", ""))
